@@ -960,6 +960,55 @@ func TestUseCase(t *testing.T) {
 			r.Eval("free-running-round", "")
 			uw.close()
 		}
+		// ---- the same with SIX goroutines, two per entity, each confined to one actor (no remove-all): the operations
+		//      of two goroutines on one entity touch disjoint keys of the SPEC map, so the declared map does not depend on
+		//      the interleaving (c20_frame_concurrent / c20_concurrent_locked: some lock order, every store takes effect),
+		//      while in the implementation they are read-modify-write cycles on the SAME entity's and the same list's data
+		for round := 0; round < h.Scale(20, 200); round++ {
+			uw := newUcsWorld()
+			spec := map[string]ucsVal{}
+			var per [][]string
+			for _, e := range ucsEntL {
+				for a := 1; a <= 2; a++ {
+					var l []string
+					g := newUcsGen(rng)
+					for tries := 0; len(l) < 10 && tries < 2000; tries++ {
+						f := strings.Fields(g.mod(e))
+						if (f[0] == "add" || f[0] == "rm" || f[0] == "avail") && f[2] == strconv.Itoa(a) {
+							l = append(l, strings.Join(f, " "))
+						}
+					}
+					per = append(per, l)
+					for _, op := range l {
+						ucsSpecApply(spec, strings.Fields(op))
+					}
+				}
+			}
+			var wg sync.WaitGroup
+			for _, l := range per {
+				wg.Add(1)
+				go func(l []string) {
+					defer wg.Done()
+					for _, op := range l {
+						uw.apply(strings.Fields(op))
+					}
+				}(l)
+			}
+			wg.Wait()
+			reply, errS := uw.peerRead()
+			_, rm, _ := ucsRender(reply)
+			if errS != "" || ucsMapStr(rm) != ucsMapStr(spec) {
+				var all []string
+				for gi, l := range per {
+					for _, op := range l {
+						all = append(all, fmt.Sprintf("goroutine %d: %s", gi+1, op))
+					}
+				}
+				r.SpecFail(ucsLostKey, all, fmt.Sprintf("free-running goroutines, two per entity on different actors: declared {%s} peer reads {%s} %s", ucsMapStr(spec), ucsMapStr(rm), errS))
+			}
+			r.Eval("free-running-round:6-goroutines", "")
+			uw.close()
+		}
 		spine.VerifYield = ucsS.Hook
 	}
 
